@@ -64,6 +64,17 @@ func c17Counts(env *core.Env) (seq, conc int) {
 }
 
 func init() {
+	// C19 runs one concurrent index-container case per repetition under the race detector (no hash index there, see c17Run)
+	c17ConcurrentCase = func(env *core.Env, rep int) *core.CaseResult {
+		nseq, nconc := c17Counts(env)
+		for j := 0; j < nconc; j++ {
+			i := (rep*5 + j) % nconc
+			if c17ConcConfig(env, i).Kind != c17Hash {
+				return c17Run(env, nseq+i)
+			}
+		}
+		return nil
+	}
 	core.Register(&core.Check{
 		ID:    "C17",
 		Level: "exploration",
